@@ -948,3 +948,10 @@ Lemma paste_left_empty : forall b, ord b = true -> do_concat false [TPlm; TRDblN
 Proof. intros b Hb. unfold do_concat. destruct b; cbn in Hb; try discriminate; reflexivity. Qed.
 Lemma paste_both_empty : do_concat false [TPlm; TRDblNo; TPlm] = Some [TSp].
 Proof. reflexivity. Qed.
+
+(* ---------- the answer does not depend on the fuel ---------- *)
+Lemma run_fuel_mono : forall q d fuel k s, run q d fuel s <> OutOfFuel -> run q d (fuel + k) s = run q d fuel s.
+Proof.
+  induction fuel as [|f IH]; intros k s H; cbn in *; [congruence|].
+  destruct (step q d s); try reflexivity. apply IH; exact H.
+Qed.
